@@ -9,9 +9,9 @@ driver for the clone model (engine `clones`, C12)
      item   := `x <orig> <clone|~> <via|->`                       aux [as clone] [via inode]
              | `a <ctx> act`       act := `rec <tag>` | `io <ref>` | `put <int> <ref>` | `inc <ref> <int>` | `done`
                                          | `rear <moot> <frame>` | `raze <all|first|last> <frame|me>`
+             | `u <frame>`                                              under frame
              | `g <far> <n> need^n` need := `<0|1> st <ref> <op> <int>` | `<0|1> all` | `<0|1> any` | `<0|1> aux <tag>`
      → the output lines of the run joined by `|` (format: harness/props/c12.py, `run_real`)
-  `region <finding> run …`  → `1` / `0`: does the program rear a moot (D12a: one with a named clone inside) and raze
 -/
 namespace Ioflo.Drv.Clones
 open Ioflo.Proto Ioflo.Clones
@@ -121,6 +121,9 @@ def itemP : P Item := fun ts => do
     let (far, r) ← tok r
     let (ns, r) ← many needP r
     return (.go far ns, r)
+  | "u" => do
+    let (n, r) ← tok r
+    return (.under n, r)
   | _ => none
 
 def frameP : P FrameSrc := fun ts => do
@@ -240,18 +243,6 @@ def progP : P (Nat × List FramerSrc) := fun ts => do
   let (t, r) ← nat ts
   let (fs, r) ← many framerP r
   return ((t, fs), r)
-
-/-- D12a region: some reared moot declares a named clone; D12b region: some moot says `done` -/
-def mootsWithNamedClone (src : List FramerSrc) : List String :=
-  (src.filter (fun f => f.frames.any (fun fr => fr.items.any (fun it =>
-    match it with | .aux _ (some c) _ => c != "mine" | _ => false)))).map (·.name)
-
-def rearedMoots (src : List FramerSrc) : List String :=
-  src.flatMap (fun f => f.frames.flatMap (fun fr => fr.items.filterMap (fun it =>
-    match it with | .act _ (.rear m _) => some m | _ => none)))
-
-def hasRaze (src : List FramerSrc) : Bool :=
-  src.any (fun f => f.frames.any (fun fr => fr.items.any (fun it => match it with | .act _ (.raze _ _) => true | _ => false)))
 
 def step (_ : Unit) (line : String) : Unit × String :=
   match words line with
